@@ -1,7 +1,7 @@
 (* C17: the asyncio scheduler runs each job at its due times, never early, independently.
    Only statements closed by [exact]; proofs are in Proofs/AioProofs.v. *)
 From Coq Require Import ZArith List Bool.
-From Sv Require Import PyTime Timer Job Sched Aio Occur TimerProofs JobProofs SchedProofs AioProofs.
+From Sv Require Import PyTime Timer Job Sched Aio Occur TimerProofs JobProofs SchedProofs AioProofs AioTrace.
 Import ListNotations.
 Open Scope Z_scope.
 
@@ -54,6 +54,21 @@ Theorem C17_invariant : forall s o s' r,
   aio_inv s' /\ (forall e, r = Err e -> e = SchedulerError \/ e = OtherError).
 Proof. exact a_step_inv. Qed.
 
+(* never early, over EVERY history: whatever scheduling calls, deletions (also from inside coroutines)
+   and virtual-time runs came before, an operation on a well-formed state records no invocation that
+   starts before the due time of its job, and leaves every sleeping supervisor set to wake at or
+   after its job's due time (the second invariant, [wake_ok]) *)
+Theorem C17_never_early_step : forall s o s' r,
+  aio_inv s -> wake_ok s -> atop_valid o -> a_step s o = (s', r) ->
+  wake_ok s' /\ Forall (fun e => match e with EStart _ t due _ _ => due <= t | _ => True end) (a_events s').
+Proof. exact a_step_trace. Qed.
+Theorem C17_never_early_history : forall tz now ops,
+  Forall atop_valid ops ->
+  let s := a_steps (a_init tz now) ops in
+  aio_inv s /\ wake_ok s /\
+  Forall (fun e => match e with EStart _ t due _ _ => due <= t | _ => True end) (a_events s).
+Proof. exact history_never_early. Qed.
+
 (* non-vacuity: cyclic 5 s, durations 1 s, 7 s, 0 s: starts at 6, 11, max(16, 18) = 18 *)
 Example C17_example :
   let c := mkCfg CYCLIC [TCyclic 5000000] 3 [] true None None false 1 1 [] [] [] in
@@ -68,3 +83,5 @@ Print Assumptions C17_invocation_starts.
 Print Assumptions C17_invocation_finishes.
 Print Assumptions C17_independent.
 Print Assumptions C17_invariant.
+Print Assumptions C17_never_early_step.
+Print Assumptions C17_never_early_history.
